@@ -175,3 +175,11 @@ def errf(f):
 
 
 DFLT = {"x": "dflt"}
+
+
+def wrap(w, e):
+    return {"x": "wrap", "w": w, "e": e}
+
+
+def attr(e, a):
+    return {"x": "attr", "e": e, "a": a}
